@@ -405,6 +405,7 @@ class Generator:
         self.fuzzy = []
         self.unit_props = []
         self.uses = []
+        self.defines = set()
 
     def source(self, rel):
         if rel not in self.sources:
@@ -420,7 +421,10 @@ class Generator:
         return self
 
     def _process_file(self, path):
-        lines = open(path).read().split('\n')
+        text = open(path).read()
+        # conditional fragments  /*+NAME: text */  (kept only when NAME is defined by an //@include ... define=NAME)
+        text = re.sub(r'/\*\+(\w+):(.*?)\*/', lambda m: m.group(2) if m.group(1) in self.defines else '', text, flags=re.S)
+        lines = text.split('\n')
         i = 0
         while i < len(lines):
             ln = lines[i]
@@ -428,7 +432,11 @@ class Generator:
             if s.startswith('//@unit'):
                 self.unit_props = re.findall(r'\bC\d\d\b', s)
             elif s.startswith('//@include'):
-                self._process_file(os.path.join(ROOT, s.split()[1]))
+                parts = s.split()
+                for d in parts[2:]:
+                    if d.startswith('define='):
+                        self.defines.add(d[7:])
+                self._process_file(os.path.join(ROOT, parts[1]))
             elif s.startswith('//@struct') or s.startswith('//@enum'):
                 p = s.split()
                 self.emit_item(p[0][3:], p[1], p[2], p[3:])
